@@ -208,44 +208,17 @@ func c19R2(c *core.Ctx) {
 	name := fnName(f)
 	type rng struct{ a, b, ka, kb int64 }
 	got := map[string]ssa.Value{}
+	var wordIdx ssa.Value // the index i of the loop word [16+4i:20+4i]
 	for _, call := range eng.Calls(f, false, idBEPutUint32) {
 		a := eng.CallArgs(call.Common())
 		sl, ok := eng.StripConv(a[1]).(*ssa.Slice)
 		if !ok {
 			continue
 		}
-		lo, isLo := eng.ConstInt(sl.Low)
-		hi, isHi := eng.ConstInt(sl.High)
-		if sl.Low == nil {
-			lo, isLo = 0, true
-		}
-		if isLo && isHi {
-			got[fmt.Sprintf("%d:%d", lo, hi)] = a[2]
-			continue
-		}
-		// loop word: index variable
-		var iv ssa.Value
-		eng.Instrs(f, func(in ssa.Instruction) {
-			if p, ok := in.(*ssa.Phi); ok && p.Comment == "rangeindex" {
-				iv = p
-			}
-		})
-		if iv != nil {
-			// the range index is phi+1 in rotated loops
-			var idx ssa.Value = iv
-			if refs := iv.Referrers(); refs != nil {
-				for _, r := range *refs {
-					if bo, ok := r.(*ssa.BinOp); ok && bo.Op == token.ADD {
-						if k, ok := eng.ConstInt(bo.Y); ok && k == 1 {
-							idx = bo
-						}
-					}
-				}
-			}
-			la, lb, ok1 := affine(sl.Low, idx, 0)
-			ha, hb, ok2 := affine(sl.High, idx, 0)
-			if ok1 && ok2 {
-				got[fmt.Sprintf("%di+%d:%di+%d", la, lb, ha, hb)] = a[2]
+		if b, iv, ok := sliceBounds(f, sl); ok {
+			got[b] = a[2]
+			if iv != nil {
+				wordIdx = iv
 			}
 		}
 	}
@@ -280,14 +253,12 @@ func c19R2(c *core.Ctx) {
 			okNonce = true
 		}
 	}
+	// the word written at [16+4i:20+4i] is ssid[i] for that same i
 	okWord := false
-	if u, ok := vw.(*ssa.UnOp); ok {
-		if ia, ok := u.X.(*ssa.IndexAddr); ok && ia.X == f.Params[0] {
+	if u, ok := vw.(*ssa.UnOp); ok && wordIdx != nil {
+		if ia, ok := u.X.(*ssa.IndexAddr); ok && ia.X == f.Params[0] && eng.SameValue(ia.Index, wordIdx) {
 			okWord = true
 		}
-	}
-	if ex, ok := vw.(*ssa.Extract); ok && ex.Index == 2 { // range value
-		okWord = true
 	}
 	c.Check(v04 != nil, rule, name+":prefix word", f.Pos(), "[0:4] written", "NewID does not write bytes [0:4]")
 	c.Check(okTime, rule, name+":inverted time", f.Pos(), "[4:8] = MaxUint32 - seconds", "NewID does not write MaxUint32-seconds at [4:8]")
@@ -306,27 +277,34 @@ func c19R2(c *core.Ctx) {
 	})
 	c.Check(okLen, rule, name+":length", f.Pos(), "len(id) = 4*len(ssid)+16", "NewID does not allocate 4*len(ssid)+16 bytes")
 	if g := fn(c, rule, "internal/message", "ID", "Ssid"); g != nil {
-		okS := false
+		// every store result[i] = Uint32(id[lo:hi]) reads the word belonging to that same i
+		okS, nSt := true, 0
 		eng.Instrs(g, func(in ssa.Instruction) {
-			sl, ok := in.(*ssa.Slice)
-			if !ok || sl.X != g.Params[0] {
+			st, ok := in.(*ssa.Store)
+			if !ok {
 				return
 			}
-			var iv ssa.Value
-			eng.Instrs(g, func(i2 ssa.Instruction) {
-				if p, ok := i2.(*ssa.Phi); ok {
-					iv = p
-				}
-			})
-			if iv == nil {
+			ia, ok := st.Addr.(*ssa.IndexAddr)
+			if !ok {
 				return
 			}
-			la, lb, ok1 := affine(sl.Low, iv, 0)
-			ha, hb, ok2 := affine(sl.High, iv, 0)
-			if ok1 && ok2 && la == 4 && lb == 16 && ha == 4 && hb == 20 {
-				okS = true
+			call, ok := eng.StripConv(st.Val).(*ssa.Call)
+			if !ok || eng.FuncID(eng.CalleeObj(&call.Call)) != idBEUint32 {
+				return
+			}
+			nSt++
+			sl, ok := eng.StripConv(eng.CallArgs(&call.Call)[1]).(*ssa.Slice)
+			if !ok || !eng.SameValue(sl.X, g.Params[0]) {
+				okS = false
+				return
+			}
+			la, lb, ok1 := affine(sl.Low, ia.Index, 0)
+			ha, hb, ok2 := affine(sl.High, ia.Index, 0)
+			if !(ok1 && ok2 && la == 4 && lb == 16 && ha == 4 && hb == 20) {
+				okS = false
 			}
 		})
+		okS = okS && nSt > 0
 		c.Check(okS, rule, fnName(g)+":word offsets", g.Pos(), "Ssid reads id[16+4i:20+4i]", "ID.Ssid does not read the words at [16+4i:20+4i]")
 	}
 	if g := fn(c, rule, "internal/message", "ID", "Contract"); g != nil {
